@@ -3,9 +3,9 @@ package checks
 // Intent: abstract description of a system, independent of sysl text and of the compiled model.
 
 type AttrV struct {
-	S *string `json:"s,omitempty"`
-	A []AttrV `json:"a,omitempty"`
-	IsArr bool `json:"arr,omitempty"`
+	S     *string `json:"s,omitempty"`
+	A     []AttrV `json:"a,omitempty"`
+	IsArr bool    `json:"arr,omitempty"`
 }
 
 type Meta struct {
@@ -37,13 +37,13 @@ type Field struct {
 }
 
 type TypeDecl struct {
-	Kind   string // tuple relation enum alias union
-	Name   string
-	Meta   Meta
-	Fields []Field
-	Enum   []EnumItem
-	Alias  *TExpr
-	Union  []TExpr
+	Kind          string // tuple relation enum alias union
+	Name          string
+	Meta          Meta
+	Fields        []Field
+	Enum          []EnumItem
+	Alias         *TExpr
+	Union         []TExpr
 	AliasIndented bool
 }
 
@@ -101,14 +101,25 @@ type RestNode struct {
 	Children []*RestNode
 }
 
+// CollectorLine is one line of a '.. * <- *' block: it merges its attributes into an endpoint of
+// the application (Kind "ep") or into every matching call statement of the application (Kind "call").
+type CollectorLine struct {
+	Kind     string
+	EpName   string
+	Target   []string
+	Endpoint string
+	Meta     Meta
+}
+
 type App struct {
-	Name   []string
-	Long   string
-	Meta   Meta
-	Mixins [][]string
-	Types  []*TypeDecl
-	Eps    []*Endpoint
-	Rest   []*RestNode
+	Collector []CollectorLine
+	Name      []string
+	Long      string
+	Meta      Meta
+	Mixins    [][]string
+	Types     []*TypeDecl
+	Eps       []*Endpoint
+	Rest      []*RestNode
 }
 
 type Intent struct {
